@@ -1405,7 +1405,41 @@ fn gen_f_op(rng: &mut Rng, scripts: &[String], langs: &[String], feats: &[String
     }
 }
 
+/// a long history on one Font that visits many distinct cache keys (every language tag, script and feature
+/// set is a key of the layout caches) and then repeats its first query: bounded caches, eviction and
+/// index bookkeeping only show after dozens of distinct keys
+fn gen_f_long(rng: &mut Rng) -> String {
+    let fx = &FIXTURES[rng.below(FIXTURES.len() as u64) as usize];
+    let scripts: Vec<String> = fx.scripts.iter().map(|s| t4(s).to_string()).collect();
+    let mut langs: Vec<String> = fx.langs.iter().map(|s| t4(s).to_string()).collect();
+    langs.push("-".to_string());
+    let cps = fx.cps.to_vec();
+    let tuple = if fx.axes == 0 { "-".to_string() } else { gen_tuple_str(rng, fx.axes) };
+    let text = gen_text(rng, &cps);
+    let feat0 = gen_features_str(rng);
+    let script0 = rng.pick(&scripts).clone();
+    let first = format!("sh:{}:{}:{}:{}:{}:n:{}", script0, rng.pick(&langs), feat0, tuple, rng.below(2), text);
+    let n = 60 + rng.below(90);
+    let mut hist = vec![first.clone()];
+    for k in 0..n {
+        // mostly new language tags (unknown tags fall back to the default LangSys but are distinct keys),
+        // sometimes another script / feature set / one of the other operations
+        let lang = format!("{}", 0x41414141u32 + (k as u32) * 0x01030507 % 0x19191919);
+        let op = match rng.below(10) {
+            0 => gen_f_op(rng, &scripts, &langs, &[feat0.clone()], &[tuple.clone()], &cps, fx.nglyphs, false),
+            1 => format!("sh:{}:{}:{}:{}:{}:n:{}", rng.pick(&scripts), lang, gen_features_str(rng), tuple, rng.below(2), text),
+            _ => format!("sh:{}:{}:{}:{}:{}:n:{}", script0, lang, feat0, tuple, rng.below(2), text),
+        };
+        hist.push(op);
+    }
+    let probe = if rng.chance(3, 4) { first } else { hist[rng.below(hist.len() as u64) as usize].clone() };
+    format!("F|{}|{}|{}", fx.path, hist.join(";"), probe)
+}
+
 fn gen_f(rng: &mut Rng) -> String {
+    if rng.chance(1, 25) {
+        return gen_f_long(rng);
+    }
     let (name, mut scripts, mut langs, cps, axes, nglyphs): (String, Vec<String>, Vec<String>, Vec<u32>, u16, u16) =
         if rng.chance(1, 4) {
             let g = if rng.chance(1, 2) { gen_spec_rvrn(rng) } else { gen_spec(rng) };
